@@ -75,6 +75,19 @@ def cases(rng, tier):
             rng.shuffle(perm)
         d = dict(zip(gen.AAS, perm))
         yield Case(["q reduce %s %d %s" % ("MKRDESTAYKKRRDDEEGWPCFHILNQV", rng.choice([20, 5]), utok(d))], {"kind": "user-alphabet-permutation"})
+    # user alphabets by IMAGE SIZE: all twenty residues projected onto ONE letter, onto two, and onto nineteen (a single merge)
+    for img_n in (1, 1, 1, 1, 2, 2, 19, 19) * (1 if tier == "quick" else 5):
+        img = rng.sample(gen.AAS, img_n)
+        if img_n == 19:
+            d = {a: a for a in gen.AAS}
+            miss = [a for a in gen.AAS if a not in img][0]
+            d[miss] = rng.choice(img)
+        else:
+            d = {a: rng.choice(img) for a in gen.AAS}
+            for t_ in img:
+                d[rng.choice(gen.AAS)] = t_
+        for sq in ("MKRDESTAYKKRRDDEEGWPCFHILNQV", gen.rand_seq(rng, "idp", rng.randint(1, 30))):
+            yield Case(["q reduce %s %d %s" % (sq, rng.choice([20, 5, 2]), utok(d))], {"kind": "user-alphabet-image-size-%d" % img_n})
     # dictionaries with MORE than the 20 keys: an extra key that is itself used as a target / is a valid or invalid symbol
     for sym in ["X", "B", "k", "-", "Z", "1", "AA"]:
         for key in ("G", "S", "K", "W", "A"):
